@@ -73,6 +73,9 @@ RHIST = [
     [["mutate", [["c", ["cast", src("R", "c"), "float"]]]]],  # int/float: common type float
     [["group_by", [src("R", "b")]]],
     [["mutate", [["h", lit(0)]], ["c", src("R", "c")]], ["select", [["col", "C", "a"], ["col", "C", "b"], ["col", "C", "c"]]]],
+    # a hidden column created later than the visible column that finally carries its name
+    # (matches the left operand after rename a -> z)
+    [["mutate", [["z", ["mul", src("R", "a"), lit(1000)]]]], ["drop", [["col", "C", "z"]]], ["rename", [["a", "z"]]]],
 ]
 POST = [
     ["filter", [["eq", Cn("a"), lit(1)]]],
@@ -102,7 +105,7 @@ def alphabet(tier):
             if not kinds:
                 return LPRE + union_events(RHIST, fn_form=True)
             if len(kinds) == 1:
-                return union_events(RHIST if tier == "thorough" else RHIST[:3] + RHIST[4:6])
+                return union_events(RHIST if tier == "thorough" else RHIST[:3] + RHIST[4:6] + RHIST[10:])
             return []
         after = kinds[kinds.index("union") + 1:]
         if not after:
